@@ -4,7 +4,8 @@ MC : specs/tmpl/TemplateLang.tla (Lex / Parse / Eval), MC_TemplateLang.cfg; the 
      (Gen_TemplateLang.cfg) checks the same invariants again over every template it dumps for the
      replay.  TLC enumerates templates token by token in
      focused families (character-level lexing, literal text, control flow, while, try, signals
-     through finally, apply, loader, whitespace, ill-formed templates) and checks that the layers
+     through finally, loop > named block > break/continue, apply, loader, whitespace, ill-formed
+     templates) and checks that the layers
      agree: a ParseError is reported exactly for an ill-formed main, error lines lie in the file,
      every tag token lexes back to one tag, literal text is reproduced byte for byte, the output
      is the concatenation of the segments, expression segments are escaped where escaping is in
